@@ -262,6 +262,16 @@ impl JobServer {
                 }
             }
         };
+        #[cfg(feature = "verif")]
+        crate::verif::point(
+            "js.setup",
+            &format!(
+                "{} {} {}",
+                max_jobs,
+                if token_fds.is_some() { "inherited" } else { "own" },
+                nix::unistd::getppid()
+            ),
+        );
         match token_fds {
             Some(token_fds) => Ok(JobServer {
                 params: Rc::new(ServerParams {
@@ -398,6 +408,11 @@ impl JobServer {
                                 }
                                 Some(1) => {
                                     state.my_tokens += 1;
+                                    #[cfg(feature = "verif")]
+                                    crate::verif::point(
+                                        "js.read",
+                                        &format!("{} {}", state.my_tokens, state.cheats),
+                                    );
                                     debug_jobserver!("read a token ({:?}).", &b);
                                     if let Some((_, w)) = state.token_wakers.pop_front() {
                                         w.wake();
@@ -412,6 +427,11 @@ impl JobServer {
                             continue;
                         }
                         debug_jobserver!("done: {}", &state.wait_fds[&fd].name);
+                        #[cfg(feature = "verif")]
+                        crate::verif::point(
+                            "js.childexit",
+                            &format!("{} {} {}", state.wait_fds[&fd].pid, state.my_tokens, state.cheats),
+                        );
                         // redo subprocesses are expected to die without releasing their
                         // tokens, so things are less likely to get confused if they
                         // die abnormally.  Since a child has died, that means a token has
@@ -422,6 +442,11 @@ impl JobServer {
                                 // someone exited with _cheats > 0, so we need to compensate
                                 // by *not* re-creating a token now.
                                 debug_jobserver!("EAT cheatfd {:?}", &b);
+                                #[cfg(feature = "verif")]
+                                crate::verif::point(
+                                    "js.eat",
+                                    &format!("{} {}", state.my_tokens, state.cheats),
+                                );
                             }
                             Ok(None) | Ok(Some(0)) => {
                                 state.create_tokens(1);
@@ -450,6 +475,11 @@ impl JobServer {
                             }
                         };
                         debug_jobserver!("done1: rv={}", status);
+                        #[cfg(feature = "verif")]
+                        crate::verif::point(
+                            "js.reaped",
+                            &format!("{} {} {} {}", pd.pid, status, state.my_tokens, state.cheats),
+                        );
                         {
                             let mut state = pd.state.borrow_mut();
                             state.exit_code = Some(status);
@@ -479,6 +509,11 @@ impl JobServer {
             state.cheats,
             n
         );
+        #[cfg(feature = "verif")]
+        crate::verif::point(
+            "js.forcereturn",
+            &format!("{} {} {}", n, state.my_tokens, state.cheats),
+        );
         state.wait_fds.clear();
         state.create_tokens(n as i32);
         if state.has_token() {
@@ -506,9 +541,19 @@ impl JobServer {
                 cheats
             );
             state.destroy_tokens(cheats);
+            #[cfg(feature = "verif")]
+            crate::verif::point(
+                "js.cheatwrite",
+                &format!("{} {} {}", state.cheats, state.my_tokens, state.cheats),
+            );
             write_tokens(self.params.cheat_fds.1, state.cheats as usize)
                 .map_err(RedoError::opaque_error)?;
         }
+        #[cfg(feature = "verif")]
+        crate::verif::point(
+            "js.returned",
+            &format!("{} {}", state.my_tokens, state.cheats),
+        );
         Ok(())
     }
 }
@@ -571,12 +616,16 @@ impl ServerState {
                 self.my_tokens += 1;
             }
         }
+        #[cfg(feature = "verif")]
+        crate::verif::point("js.create", &format!("{} {} {}", n, self.my_tokens, self.cheats));
     }
 
     /// Destroy n tokens that are currently in our posession.
     fn destroy_tokens(&mut self, n: i32) {
         assert!(self.my_tokens >= n);
         self.my_tokens -= n;
+        #[cfg(feature = "verif")]
+        crate::verif::point("js.destroy", &format!("{} {} {}", n, self.my_tokens, self.cheats));
     }
 
     #[inline]
@@ -605,6 +654,11 @@ impl ServerState {
         }
         assert!(self.my_tokens >= 0);
         assert!(self.cheats >= 0);
+        #[cfg(feature = "verif")]
+        crate::verif::point(
+            "js.release",
+            &format!("{} {} {} {}", n, n_to_share, self.my_tokens, self.cheats),
+        );
         if n_to_share > 0 {
             debug_jobserver!("PUT tokenfds {}", n_to_share);
             write_tokens(token_fds.1, n_to_share)?;
@@ -672,6 +726,14 @@ impl JobServerHandle {
             ForkResult::Parent { child: pid } => {
                 helpers::close_on_exec(r, true).map_err(RedoError::opaque_error)?;
                 unistd::close(w).map_err(RedoError::opaque_error)?;
+                #[cfg(feature = "verif")]
+                {
+                    let st = self.state.borrow();
+                    crate::verif::point(
+                        "js.start",
+                        &format!("{} {} {} {}", pid, st.my_tokens, st.cheats, reason.replace(' ', "_")),
+                    );
+                }
                 let job_state = Rc::new(RefCell::new(JobState::default()));
                 self.state.borrow_mut().wait_fds.insert(
                     r,
@@ -785,6 +847,11 @@ impl JobServerHandle {
                         let mut state = self.state.borrow_mut();
                         state.my_tokens += n;
                         state.cheats += n;
+                        #[cfg(feature = "verif")]
+                        crate::verif::point(
+                            "js.cheat",
+                            &format!("{} {} {}", n, state.my_tokens, state.cheats),
+                        );
                         return Ok(());
                     }
                 }
@@ -887,6 +954,11 @@ impl AllJobsDone {
             .map_err(RedoError::opaque_error)?
             .unwrap_or(0);
         debug_jobserver!("toplevel: GOT {} tokens and {} cheats", tokens, cheats);
+        #[cfg(feature = "verif")]
+        crate::verif::point(
+            "js.selftest",
+            &format!("{} {} {}", tokens, cheats, self.params.top_level),
+        );
         if (tokens - cheats) as i32 != self.params.top_level {
             return Err(RedoError::new(format!(
                 "on exit: expected {} tokens; found {}-{}",
